@@ -186,6 +186,28 @@ func main() {
 			runs = append(runs, r)
 		}
 		extra := map[string]any{}
+		// helpers the rules looked through (new functions not among the anchors of known_funcs.txt)
+		for _, pr := range progs {
+			if pr == nil {
+				continue
+			}
+			var inl []string
+			for _, fn := range pr.AllFuncs {
+				if pr.transparent(fn) {
+					inl = append(inl, pr.fnName(fn)+" (inlined into "+pr.hostName(fn)+")")
+				}
+			}
+			if inl == nil {
+				inl = []string{}
+			}
+			cl := pr.Cloned
+			if cl == nil {
+				cl = []string{}
+			}
+			extra["helpers_analysed_inlined"] = inl
+			extra["helpers_cloned_per_call_site"] = cl
+			break
+		}
 		if *tier == "thorough" && *selftest != "" {
 			st := runSelfTest(*repo, *selftest, id, *knownP)
 			extra["selftest"] = st.Summary
